@@ -929,6 +929,10 @@ def discr_switch_after_call(body, call_block):
 APATH_TRANSPARENT = re.compile(r'(::|^)(deref|deref_mut|borrow|borrow_mut|as_ref|as_mut|get_mut|clone|as_deref|as_deref_mut|as_pin_mut|get_ref|into_inner|project|project_ref|as_pin_ref|new_unchecked|new|get_unchecked_mut|map_unchecked_mut|into_future|get)$')
 
 
+# lossless integer widening spelled as a call (`usize::from(x)`, `x.into()`): the same value as `x as usize`
+INT_CONV = re.compile(r'^(?:<(?:u8|u16|u32|u64|u128|usize|i16|i32|i64|i128|isize) as std::convert::(?:From|Into)<(?:u8|u16|u32|u64|usize|bool)>>::(?:from|into)|std::convert::num::<impl std::convert::From<(?:u8|u16|u32|u64|usize|bool)> for (?:u8|u16|u32|u64|u128|usize|i16|i32|i64|i128|isize)>::from)$')
+
+
 def apath(body, x, depth=0, seen=None):
     """Canonical access path of a place/operand: ('arg1','queues','inflight') following refs,
     moves, and transparent accessor calls. None when ambiguous/unknown."""
@@ -973,7 +977,7 @@ def apath(body, x, depth=0, seen=None):
                     r = ('__full__',) + (inner + tuple(fields[1:])) if inner is not None else None
         elif kind == 'call':
             nm = callee_name(d) or ''
-            if APATH_TRANSPARENT.search(nm) and d['args']:
+            if (APATH_TRANSPARENT.search(nm) or INT_CONV.match(nm) or INT_CONV.match((op_const(d.get('func') or {}) or {}).get('res') or '')) and d['args']:
                 r = apath(body, d['args'][0], depth + 1, seen)
             else:
                 r = ('call:' + nm,)
